@@ -132,6 +132,19 @@ PROPS["C14"] = {
     "explanation": "index abstraction with auto-cut loops; ~50 contract variants",
 }
 
+PROPS["C19"] = {
+    "modules": [], "contracts": [],
+    "standin": True,
+    "level": "exploration",
+    "trusted": ["xarray/pandas (Index.get_indexer, isel, reduce, expand_dims, assign_attrs) as installed"],
+    "not_proved": ["_iteragg is a generator over xarray objects: outside the verifier's subset; no obligation is discharged for it yet"],
+    "assumptions": [],
+    "level_text": "bounded only (labelled as such): exhaustive enumeration of the domain the property itself names -- all axis lengths 1..7 (12 in thorough), all n, all begin/end on the axis, sum/mean/full, off-axis labels with and without lookup method -- against an independent window oracle; no deductive obligation yet for _iteragg (xarray-level generator)",
+    "level_note": "not a proof: exhaustive bounded check of the real accessor over the stated finite domain",
+    "technique": "bounded stand-in for contract-based verification: the contract (exact window sequence, stamps, attrs, ValueError for unlocatable labels) evaluated at run time on the real accessor, exhaustively over the property's finite domain",
+    "explanation": "exhaustive bounded evaluation of the contract",
+}
+
 ALL = ["C%02d" % i for i in range(1, 21)]
 NOT_APPLICABLE = {
     "C13": "statement about Numba's type inference/lowering and the ctypes binding of SciPy kernels (the translator), not about functions of /repo: no contract on hdc-algo source can establish or refute it; it is the stated assumption of every proof here",
